@@ -108,12 +108,31 @@ func TestDriveC17(t *testing.T) {
 				Curves:  []configuration.CurveConfig{{ID: "c17c", Linear: &configuration.LinearCurveConfig{Sensor: "c17s", Min: 40, Max: 80}}},
 				Fans:    []configuration.FanConfig{{ID: "c17fan", Curve: "c17c", HwMon: &sel}},
 			}
+			if r.Intn(2) == 0 {
+				for _, ch := range chips {
+					if len(ch.fans) > 0 {
+						good := configuration.HwMonFanConfig{Platform: ch.name, Index: 1}
+						cc.Fans = append([]configuration.FanConfig{{ID: "c17good", Curve: "c17c", HwMon: &good}}, cc.Fans...)
+						break
+					}
+				}
+			}
 		} else {
 			sel := configuration.HwMonSensorConfig{Platform: platform, Index: 1 + r.Intn(4)}
 			ev["sel"] = Ev{"platform": platform, "index": sel.Index, "rpmChannel": 0, "pwmChannel": 0}
 			cc = configuration.Configuration{
 				Sensors: []configuration.SensorConfig{{ID: "c17sensor", HwMon: &sel}},
 				Curves:  []configuration.CurveConfig{{ID: "c17c", Linear: &configuration.LinearCurveConfig{Sensor: "c17sensor", Min: 40, Max: 80}}},
+			}
+			// other, valid entries before the one under test (an entry must be judged on its own)
+			if r.Intn(2) == 0 {
+				for _, ch := range chips {
+					if len(ch.temps) > 0 {
+						good := configuration.HwMonSensorConfig{Platform: ch.name, Index: 1}
+						cc.Sensors = append([]configuration.SensorConfig{{ID: "c17good", HwMon: &good}}, cc.Sensors...)
+						break
+					}
+				}
 			}
 		}
 		configuration.CurrentConfig = cc
@@ -133,7 +152,10 @@ func TestDriveC17(t *testing.T) {
 				return
 			}
 			if isFan {
-				for _, f := range fanMap {
+				for fc, f := range fanMap {
+					if fc.ID != "c17fan" {
+						continue
+					}
 					hf := f.(*fans.HwMonFan)
 					rpm, e1 := f.GetRpm() // really read: 1000*chip + 10*channel + 1
 					pwm, e2 := f.GetPwm() // really read: 100 + 10*chip + channel
